@@ -63,6 +63,7 @@ type Env struct {
 	BlockHashes      map[uint64]Hash // nil: none provided
 	Withdrawals      []Withdrawal
 	ParentBeaconRoot *Hash
+	Quirks           Quirks // all false in the oracle (see Quirks)
 }
 
 // Receipt is the consensus part of a receipt plus the per-transaction gas.
@@ -212,7 +213,7 @@ func systemCall(state State, env *BlockEnv, target Address, data []byte, tracer 
 
 // parseDeposit validates the ABI layout of a deposit event (EIP-6110) and returns the
 // 192-byte deposit request.
-func parseDeposit(d []byte) ([]byte, bool) {
+func parseDeposit(d []byte, checkLayout bool) ([]byte, bool) {
 	if len(d) != 576 {
 		return nil, false
 	}
@@ -220,7 +221,7 @@ func parseDeposit(d []byte) ([]byte, bool) {
 	want := [][2]int64{{0, 160}, {32, 256}, {64, 320}, {96, 384}, {128, 512}, // offsets
 		{160, 48}, {256, 32}, {320, 8}, {384, 96}, {512, 8}} // sizes
 	for _, w := range want {
-		if word(int(w[0])).Cmp(big.NewInt(w[1])) != 0 {
+		if checkLayout && word(int(w[0])).Cmp(big.NewInt(w[1])) != 0 {
 			return nil, false
 		}
 	}
@@ -242,7 +243,7 @@ func Transition(f Fork, pre State, env *Env, txs []*Tx, trace TraceSink, cov *Co
 	state := pre.Copy()
 	res := &BlockResult{}
 	be := &BlockEnv{Fork: f, ChainID: env.ChainID, Coinbase: env.Coinbase, Number: env.Number, Timestamp: env.Timestamp,
-		GasLimit: env.GasLimit, Random: env.Random}
+		GasLimit: env.GasLimit, Random: env.Random, Quirks: env.Quirks}
 	if be.ChainID == nil {
 		be.ChainID = big.NewInt(1)
 	}
@@ -343,9 +344,12 @@ func Transition(f Fork, pre State, env *Env, txs []*Tx, trace TraceSink, cov *Co
 		var deposits []byte
 		for _, l := range allLogs {
 			if l.Address == DepositAddress && len(l.Topics) > 0 && l.Topics[0] == DepositEventTopic {
-				d, ok := parseDeposit(l.Data)
+				d, ok := parseDeposit(l.Data, !env.Quirks.NoDepositLayoutCheck)
 				if !ok {
-					res.ToolError = "invalid deposit log"
+					res.ToolError = "invalid deposit log layout"
+					if len(l.Data) != 576 {
+						res.ToolError = "invalid deposit log length"
+					}
 					return res, state
 				}
 				deposits = append(deposits, d...)
